@@ -63,6 +63,11 @@ TABLE = {
  "C18": [("Proofs/StructBound", n) for n in ["pop_bound_sound", "pop_bound_bounded", "core_bounded_crun", "view_bounded_state_after", "sma_pop", "cyber_pop"]] +
         [("Proofs/StructSched", n) for n in ["sched_pop_bound", "sched_pop_bounded"]],
 }
+EXTRA7 = {
+ "C16": [("Proofs/BridgeP", n) for n in ["sma_bridge", "cumulative_bridge", "ema_bridge", "wr_mean_bridge", "bridge_needs_finiteness", "sma_prim_drift", "sma_sum_prim_drift",
+                                         "cumulative_prim_drift", "ema_prim_drift", "wr_mean_prim_drift"]] + [("Proofs/BridgeSim", "core_bridge")],
+ "C13": [("Proofs/BridgeP", n) for n in ["wr_mean_bridge", "wr_mean_prim_drift"]],
+}
 EXTRA6 = {
  "C12": [("Proofs/Pow2P", n) for n in ['sma_pow2_flx', 'ema_pow2_flx', 'ema_alpha_pow2_flx', 'cumulative_pow2_flx', 'min_pow2_flx', 'max_pow2_flx', 'rsi_pow2_flx', 'myrsi_pow2_flx', 'roc_pow2_flx', 'hln_pow2_flx', 'cog_pow2_flx', 'welford_pow2_flx', 'welford_mean_pow2_flx', 'vst_pow2_flx', 'vst_flat_pow2_flx', 'vsct_pow2_flx', 'alma_pow2_flx', 'ss_pow2_flx', 'laguerre_pow2_flx', 'roofing_pow2_flx', 'cyber_pow2_flx', 'drawdown_pow2_flx', 'lnret_pow2_flx', 'entropy_pow2_flx', 'lrsi_pow2_flx', 'trendflex_pow2_flx', 'reflex_pow2_flx', 'net_pow2_flx', 'cti_pow2_flx']] +
         [("Proofs/Pow2Flx", n) for n in ["round_FLX_mult_bpow", "flx_rnd_pow2", "b64_round_flx", "b64_round_not_pow2_invariant"]],
@@ -147,7 +152,7 @@ def header_of(path, name):
     return " ".join(m.group(1).split())
 
 def _merge_extra():
-    for ex in (EXTRA2, EXTRA3, EXTRA4, EXTRA5, EXTRA6):
+    for ex in (EXTRA2, EXTRA3, EXTRA4, EXTRA5, EXTRA6, EXTRA7):
         for k, v in ex.items():
             EXTRA[k] = EXTRA.get(k, []) + v
 
